@@ -100,19 +100,51 @@ def segsOf (fuel seed : Nat) (data : Bytes) : List Bytes :=
     let n := 1 + (y / 65536) % 3000
     data.take n :: segsOf fuel y (data.drop n)
 
-def simRead (stream : Bytes) (mode : String) (seed : Nat) : String :=
+/-- the poll a reader API makes: `read` with a `p`-byte buffer, `read_chunk(p, ..)`, `read_chunks` with `p` buffers,
+    `read_to_end` = `read_chunk(usize::MAX, false)` -/
+def readStep (api : String) (p : Nat) : RStep :=
+  match api with
+  | "read" => .read p
+  | "chunk" | "uchunk" => .readChunk p
+  | "chunks" => .readChunks p
+  | _ => .readChunk (2 ^ 64 - 1)
+
+/-- keep polling (the API chosen by `pick` from what was returned so far) until a poll is `Pending` or reports
+    end-of-stream -/
+def drain : Nat → (Reader → RStep) → Reader → Reader
+  | 0, _, r => r
+  | f + 1, pick, r =>
+    let r' := r.step (pick r)
+    if r'.pendings > r.pendings || r'.eos > r.eos then r' else drain f pick r'
+
+def partsLen (ps : List Bytes) : Nat := ps.foldl (fun n b => n + b.length) 0
+
+/-- the shortest initial run of `parts` holding at least `n` bytes, and the rest -/
+def splitPrefix : Nat → List Bytes → List Bytes × List Bytes
+  | 0, ps => ([], ps)
+  | _, [] => ([], [])
+  | n + 1, b :: bs => let (a, c) := splitPrefix (n + 1 - b.length) bs; (b :: a, c)
+
+def simRead (stream : Bytes) (mode pre : String) (seed : Nat) : String :=
   let parts := mode.splitOn ":"
   let p := max 1 ((parts.getD 1 "1000").toNat?.getD 1000)
-  let (rd, per) : RStep × Nat :=
-    match parts.head? with
-    | some "read" => (.read p, p)
-    | some "chunk" => (.readChunk p, p)
-    | some "chunks" => (.readChunks p, 4294967296)
-    | _ => (.readChunk (2 ^ 64 - 1), 4294967296)
+  let main := readStep (parts.head?.getD "end") p
+  let pp := pre.splitOn ":"
+  let preApi := pp.head?.getD "none"
+  let preStep := readStep preApi (max 1 ((pp.getD 1 "100").toNat?.getD 100))
+  let preN := if preApi == "none" then 0 else (pp.getD 2 "0").toNat?.getD 0
+  -- the prefix API is used while fewer than `preN` bytes were returned (few, short reads: cheap to recount)
+  let pick : Reader → RStep := fun r => if preN > 0 && partsLen r.rparts < preN then preStep else main
   let segs := segsOf (stream.length + 1) seed stream
-  let steps := segs.flatMap (fun seg => .deliver seg :: List.replicate (seg.length / per + 1 + seg.length % 2) rd)
-  let r := Reader.init.run (steps ++ [.finish, rd, .read 8])
-  let got := if parts.head? == some "end" then assemble (withOffsets 0 r.rparts.reverse) else r.got
+  let r := segs.foldl (fun r seg => drain (seg.length + 2) pick (r.step (.deliver seg))) Reader.init
+  let r := drain (stream.length + 2) pick (r.step .finish)
+  let r := r.step (.read 8)
+  let got :=
+    if parts.head? == some "end" then
+      -- what the prefix reads returned, then `read_to_end`'s reassembly of the rest from absolute offsets
+      let (a, c) := splitPrefix preN r.rparts.reverse
+      a.flatten ++ assemble (withOffsets a.flatten.length c)
+    else r.got
   s!"bytes={got.length} sum={hex8 (fnv got)} eos={if r.eos ≥ 1 then 1 else 0} post={if r.eos ≥ 2 then "eos" else "data"}"
 
 def simStream (ws : List String) (pre : String) : String :=
@@ -120,9 +152,10 @@ def simStream (ws : List String) (pre : String) : String :=
   let seed := kvNat ws (pre ++ "seed") 0
   let w := (kvOf ws (pre ++ "w")).getD "all:1000"
   let r := (kvOf ws (pre ++ "r")).getD "read:1000"
+  let prefixRead := (kvOf ws (pre ++ "pre")).getD "none"
   match simWrite (payload seed len) w seed with
   | none => "model-stall"
-  | some stream => simRead stream r (seed + 7) ++ " stopped=none"
+  | some stream => simRead stream r prefixRead (seed + 7) ++ " stopped=none"
 
 /-! ### close / event cases -/
 
